@@ -81,6 +81,9 @@ CLAIM = ("Every call of the real normalize_chunks made in the check's processes 
          "shapes and the NumPy values; held = no mismatch on the executions observed.")
 LEVEL_NOTE = "NumPy and the harness's own spec normaliser are the reference; p2p rechunk cannot run (no distributed)"
 TECHNIQUE = "runtime monitoring: return-value contract on normalize_chunks (all callers) + NumPy/own-normaliser differential on rechunk"
+# Status when this module was handed over: the lead has committed fixes for the zero-length, string-limit and both
+# balance labels in /repo (b93744a, 1f54286, 0b1e831, 7a2cf1f) and registered the tolerance label as a known finding;
+# with those the quick run is HELD.  The entries stay here as the record of what each label means.
 PENDING = {
     "normalize_chunks:auto&zero-length-dim:ZeroDivisionError":
         "'auto'/byte-string chunks with a zero-length dimension divide by the zero largest block (auto_chunks / _compute_multiplier)",
